@@ -30,6 +30,8 @@ import (
 
 // Open findings (each switches one generator exclusion on).
 const (
+	c14FindUnicodeTag   = "C14-nonascii-dollar-tag"         // $é$...$é$ is a dollar-quoted string for DuckDB, not for the masker
+	c14FindNestedCmt    = "C14-nested-comment-residue"      // /* a /* n */ b */: arc ends the comment at the first */, the residue closes the table-position window
 	c14FindUnicodeGap   = "C14-unicode-space-before-paren"  // read_blob<NBSP>('...'): Go's \s is ASCII-only, DuckDB's whitespace is not
 	c14FindCTEWith      = "C14-cte-with-whitespace"         // header path only looks for CTEs when the text contains "with " (with a space)
 	c14FindQueryFn      = "C14-query-table-function"        // query()/query_table()/json_execute_serialized_sql() run nested SQL hidden in a literal
@@ -180,7 +182,15 @@ func (g *c14Gen) strLit(s string) string {
 		return "$$" + s + "$$"
 	case 1:
 		g.tag("lit:dollar-tag")
-		return "$p1$" + s + "$p1$"
+		// every tag DuckDB's lexer accepts: letters, underscore, non-leading digits
+		tags := []string{"p1", "my_tag", "_", "t_1", "Tag9", "_x1", "A", "a_b_c"}
+		if !verifkit.Excluded(c14FindUnicodeTag) {
+			tags = append(tags, "é", "ü1", "日本")
+		} else {
+			verifkit.CountExcluded(c14FindUnicodeTag)
+		}
+		tag := tags[g.pick("dollartag", len(tags))]
+		return "$" + tag + "$" + s + "$" + tag + "$"
 	case 2:
 		g.tag("lit:estring")
 		return g.oneOf("eprefix", "E", "e") + "'" + strings.ReplaceAll(q, `\`, `\\`) + "'"
@@ -416,7 +426,7 @@ func (g *c14Gen) statement(header string) string {
 		}
 	} else {
 		shapes = []string{"plain", "comma", "join", "subq-from", "subq-scalar", "subq-where", "cte", "cte-shadow", "lateral", "union",
-			"funcbody", "timefn", "from-first", "explain", "sample"}
+			"funcbody", "timefn", "from-first", "explain", "sample", "layered", "layered"}
 		if !verifkit.Excluded(c14FindStmtHead) {
 			shapes = append(shapes, "head", "head")
 		}
@@ -507,6 +517,30 @@ func (g *c14Gen) statement(header string) string {
 	case "explain":
 		g.tag("head:explain")
 		return g.join(g.oneOf("explain", "EXPLAIN", "EXPLAIN ANALYZE", "EXPLAIN (FORMAT JSON)"), S, g.proj(""), F, g.ref(U, header), g.closer())
+	case "layered":
+		// two cooperating disguises: an earlier literal that leaves a naive quote
+		// tracker in the wrong state, and a comment glued in front of a path
+		// literal standing in table position. Plain blanks everywhere else, so no
+		// other comment marker precedes the literal.
+		g.tag("layered")
+		g.ment = true
+		first := g.oneOf("unbalanced", "$$it's$$ AS n1, ", "$q$'$q$ AS n2, ", `$$"$$ AS n3, `, `E'it\'s' AS n4, `, "$t_1$it's$t_1$ AS n5, ", "'it''s' AS n6, ", "'a' 'b' AS n7, ", "")
+		cm := g.oneOf("gluecm", "/* pad */ ", "/* pad */", "-- pad\n", "/* a */ /* b */ ", "/**/ ", "/* ' */ ", "")
+		pth := fmt.Sprintf("%s/%s/%s/%s/%s", g.e.root, U.DB, U.M, c14Partition, U.FileName)
+		if g.chance("layglob", 30) {
+			pth = fmt.Sprintf("%s/%s/%s/2024/01/01/0?/%s", g.e.root, U.DB, U.M, U.FileName)
+		}
+		lit := g.oneOf("laylit", "'"+pth+"'", "'"+pth+"'", "$$"+pth+"$$", "E'"+pth+"'", "$x_1$"+pth+"$x_1$", `"`+pth+`"`)
+		switch g.oneOf("laypos", "comma", "comma", "from", "join", "subq-comma") {
+		case "comma":
+			return S + " " + first + "s.* " + F + " " + aref + " c, " + cm + lit + " s"
+		case "from":
+			return S + " " + first + "count(*), max(tag) " + F + " " + cm + lit
+		case "join":
+			return S + " " + first + "max(s.tag) " + F + " " + aref + " c CROSS JOIN " + cm + lit + " s"
+		default:
+			return S + " " + first + "count(*) " + F + " (" + S + " 1 AS one " + F + " " + aref + ") c, " + cm + lit + " s"
+		}
 	case "sample":
 		return g.join(S, ex+g.proj(""), F, g.ref(U, header), g.oneOf("sample", "USING SAMPLE 5", "TABLESAMPLE RESERVOIR(5)", "t(a, b, c, d)", "AS t"), g.closer())
 	default: // head: table position without a FROM keyword
@@ -554,6 +588,16 @@ func c14GenCase(t *rapid.T, e *c14Env) c14Case {
 			// "from"/"join" at all, is executed verbatim (getTransformedSQL fast
 			// paths), so a quote inside a comment hides whatever follows it
 			verifkit.CountExcluded(c14FindQuoteComment)
+			if try < 20 {
+				continue
+			}
+			c.Req.SQL = "SELECT 1 FROM db1.cpu LIMIT 1"
+		}
+		if verifkit.Excluded(c14FindNestedCmt) && c14HasFeature(c, "cmt:nested") && c14ExecutedVerbatim(c.Req.SQL) {
+			// open finding: DuckDB nests block comments, stripSQLComments does not;
+			// in a statement handed to DuckDB verbatim the residue after the first
+			// */ reads as a token that closes the table-position window
+			verifkit.CountExcluded(c14FindNestedCmt)
 			if try < 20 {
 				continue
 			}
@@ -1053,4 +1097,16 @@ func TestVerifC14_Sequences(t *testing.T) {
 			verifkit.NonTrivial(fmt.Sprintf("seq|%s|%+v", seq.SQL, seq.Steps))
 		}
 	})
+}
+
+func TestVerifKF_C14_nested_comment_residue(t *testing.T) {
+	e := c14NewEnv(t)
+	rep, what := c14Repro(e, c14Req{Endpoint: "json", SQL: "DESCRIBE /* a /* n */ b */ '" + c14CanaryFile + "'"})
+	verifkit.KnownFinding(c14FindNestedCmt, rep, "DESCRIBE /* a /* n */ b */ '<path>': the residue `b */` left by the non-nesting comment stripper closes the table-position window: "+what)
+}
+
+func TestVerifKF_C14_nonascii_dollar_tag(t *testing.T) {
+	e := c14NewEnv(t)
+	rep, what := c14Repro(e, c14Req{Endpoint: "json", SQL: "SELECT max(tag) FROM $é$" + c14CanaryFile + "$é$"})
+	verifkit.KnownFinding(c14FindUnicodeTag, rep, "FROM $é$<path>$é$: DuckDB accepts non-ASCII letters in a dollar-quote tag, dollarQuoteTag does not, so the literal is never masked: "+what)
 }
